@@ -4,10 +4,42 @@ import json
 
 # id -> (technique, level text, level note, design ref)
 CHECKS = {
+ "C01": ("mutation-based generated-input search (truncation/field sweeps, proptest havoc) + libFuzzer (thorough) against a no-panic/no-hang + digest-purity oracle",
+         "Exploration: every cut length and every boundary-valued 16/32-bit field of every table of ~80 corpus fonts (enumerated), tens of thousands of proptest havoc mutations, each observed through the whole-file route (generic get_field traversal of every table graph + the hand-written helper families) or as a raw payload read as 239 plain + 24 argument-taking table types; crash/hang-isolating worker processes; purity by recomputing the observation digest on repeat, at byte offsets 1..3 and on a second thread. Sampling, no proof.",
+         "Trusts the harness observer (vtotal::observe), the 20 s/100 s CPU budgets as the definition of a hang, and libFuzzer for the coverage-guided part; iterators are consumed through take(70000) and traversals through a node budget.",
+         "DESIGN.md §4 C01"),
+ "C02": ("generated hostile fonts x generated argument records (proptest) + libFuzzer (thorough); oracle: no panic/abort/hang, errors only as values",
+         "Exploration: corpus fonts unmutated / swept / havoc-mutated crossed with generated argument records (glyph ids, sizes incl. non-finite, coordinate vectors, engine x target x pedantic, caller memory of every length class and misalignment, path styles, fresh / reconfigured / foreign hinting instances) driving all MetadataProvider queries, draws and colour paints; IFT client over the repository's mapping/patch fixtures under byte edits x generated subset definitions x decoders incl. one failing at call k; shared-brotli decoder on mutated streams. Worker processes attribute aborts/hangs. Sampling, no proof.",
+         "Trusts the harness drivers (vtotal::skdrive, vtotal::iftdrive) and the CPU budgets as the definition of a hang; colour paints run under a callback budget.",
+         "DESIGN.md §4 C02"),
+ "C03": ("differential testing against FreeType (via fauntlet's adapters) over an enumerated font x glyph x ppem x mode grid",
+         "Exploration (differential): every glyph of every static outline font of the corpus (+ vendored DejaVu/Liberation/FiraSans) at a seeded 40-size sample (quick) or the full 285-size grid (thorough) per mode, in font units, unhinted, interpreter x 5 targets, and the autohinter on the frozen agreement fonts; exact equality of regularised paths and advances with FreeType 2.12.1. Known discrepancies of the unchanged tree are listed findings, excluded by construction and reproduced in a dedicated stage.",
+         "Trusts FreeType 2.12.1 as built by freetype-sys (the comparison tool's baseline) and fauntlet's RegularizingPen normalisation; a frozen corpus, not all fonts.",
+         "DESIGN.md §4 C03"),
  "C06": ("proptest-generated add_raw/copy_missing_tables histories vs an independent sfnt reader + checksum oracle",
          "Exploration: tens of thousands (quick) to hundreds of thousands (thorough) of generated tag->bytes maps and builder call sequences; each output is checked by an independent sfnt parser/checksummer written in the harness and by re-opening it with FontRef. Finite sampling of an infinite space, no proof.",
          "Trusts the harness's own ~100-line sfnt reader and checksum routine (vcore::sfnt) and proptest's generators; FontRef::new/table_data are part of what is checked, not trusted.",
          "DESIGN.md §4 C06"),
+ "C08": ("proptest-generated mappings (run-structured, boundary-rich) vs a model map; full-BMP lookup sweep per case",
+         "Exploration: ~15 k (quick) / ~115 k (thorough) generated character maps, each compiled and checked on all 65 536 BMP code points plus a boundary set, through Cmap/Cmap4/Cmap12 lookups and iterators, skrifa Charmap/MappingIndex, and generated Cmap14 variation-sequence tables. Sampling, no proof.",
+         "Trusts the BTreeMap model and vcore::fontkit's hand-encoded maxp/head; the table-level U+FFFF sentinel answer Some(0) is treated as unmapped as the property allows.",
+         "DESIGN.md §4 C08"),
+ "C09": ("proptest-generated glyph lists / paths vs read-back equality, an own canonical-length oracle and geometric path equality",
+         "Exploration: hundreds of thousands of generated glyph lists (simple/composite/empty; delta classes; flag runs > 255; sizes straddling the short-loca limit) through GlyfLocaBuilder and read back; generated line/quad paths drawn unscaled through skrifa and compared geometrically. Sampling, no proof.",
+         "Trusts the harness's reference TrueType contour-to-path conversion and canonical shortest-length computation; composite instructions cannot be generated through the public API.",
+         "DESIGN.md §4 C09"),
+ "C13": ("proptest-generated COLR paint graphs (cycles, sharing, all 32 formats) + byte havoc on corpus COLR tables vs a recording painter with a LIFO-balance oracle",
+         "Exploration: hundreds of thousands of generated paint graphs hand-assembled into COLR tables and painted with a typed-stack recorder (balance on Ok; Err required for reachable cycles when every cached-glyph answer is Unimplemented); corpus COLR fonts unmutated and under COLR-table havoc; libFuzzer on raw COLR bytes (thorough). Sampling, no proof.",
+         "Trusts the harness COLR assembler (vtotal::colrgen) and its cycle-reachability computation; paints are cut at a 300000-callback budget (not a verdict).",
+         "DESIGN.md §4 C13"),
+ "C15": ("exhaustive enumeration of 8/16/24-bit (and, thorough, all 2^32 fixed) values + boundary grid and proptest operands vs an i128 / exact-dyadic reference",
+         "Exploration, partly exhaustive: every 8/16/24-bit pattern of every scalar type; all 2^32 Fixed/F26Dot6 patterns for conversions in thorough (strided + boundary blocks in quick); 340-value boundary grid squared/cubed plus millions of generated operands for Mul/Div/mul_div against exact i128 arithmetic rounded half away from zero; OtRound against exact floor(x+1/2).",
+         "Trusts the in-file reference arithmetic (never calls the library); float ties accept either neighbour only where the documentation does not fix the direction.",
+         "DESIGN.md §4 C15"),
+ "C20": ("the generators of C01/C02/C13 + the klippa plan step re-run in an overflow-checked, assertion-enabled build; libFuzzer (thorough)",
+         "Exploration: exactly the stages of C01, C02 and C13 plus klippa::Plan::new on mutated fonts, compiled with overflow-checks and debug-assertions on; a failure is a panic with an overflow-check or assertion message (other panics are release-profile panics owned by C01/C02/C13). Sampling; the tail of reachable overflow sites is long (see DESIGN.md).",
+         "Trusts the message-based classification of panics; harness arithmetic is explicitly wrapping so overflow panics can only come from the crates under test.",
+         "DESIGN.md §4 C20"),
 }
 NOT_YET = {}  # id -> reason
 
